@@ -6,6 +6,7 @@
                 (ValueError when there is none and pre is non-empty), leaves exactly `post` unread.
   C18_first_match   the scanner model is the incremental regex search: it stops at the first character that
                 completes a report-shaped substring, and until then `resp = extra ++ cand` (lemma `scanAll_pre`).
+  C18_decimal   the ASCII decimal digits of n (what a terminal's report contains) are digits and have value n.
   C18_conserve  _get_cursor_vertical_diff_once: (change of top_usable_row) + returned = row - last known row;
                 nothing changes when no row was known.  C18_once_exact gives the closed form of the two clamped loops.
   C18_nested    get_cursor_vertical_diff with nested calls arriving during the queries (re-entrancy flags): the nested
@@ -322,6 +323,38 @@ example : C18.obs (getCursorPosition Spec.digitVal true
       ([.char 'a', .char '\x1b', .oserror, .char '\x1b', .char '[', .char '1', .char '\u009b', .char '2', .char '4',
         .char ';', .char '8', .char '0', .char 'R', .char 'x'])) =
     some (some (23, 79), some ['a', '\x1b', '\x1b', '[', '1'], [.char 'x']) := by decide
+
+/-! ### the decimal round trip (what the terminal sends is what the parser reads) -/
+
+theorem C18.digitVal_of_isDigit (c : Char) (h : c.isDigit = true) :
+    Spec.digitVal c = some (c.toNat - '0'.toNat) := by
+  unfold Spec.digitVal
+  have : '0' ≤ c ∧ c ≤ '9' := by
+    simp [Char.isDigit] at h
+    exact ⟨h.1, h.2⟩
+  rw [if_pos this]
+
+theorem C18.valueFrom_digits (ds : List Char) (acc : Nat) (h : ∀ d ∈ ds, d.isDigit = true) :
+    valueFrom Spec.digitVal acc ds = Nat.ofDigitChars 10 ds acc := by
+  induction ds generalizing acc with
+  | nil => simp [valueFrom]
+  | cons d ds ih =>
+    have hd := C18.digitVal_of_isDigit d (h d List.mem_cons_self)
+    simp only [valueFrom, List.foldl_cons, Nat.ofDigitChars_cons, hd, Option.getD_some]
+    have := ih (acc * 10 + (d.toNat - '0'.toNat)) (fun x hx => h x (List.mem_cons_of_mem _ hx))
+    simp only [valueFrom] at this
+    rw [this, Nat.mul_comm]
+
+/-- decimal round trip: the digits a terminal sends for `n` are ASCII digits and read back as `n` -/
+theorem C18_decimal (n : Nat) :
+    Digits Spec.digitVal (Spec.Terminal.decimal n) ∧ value Spec.digitVal (Spec.Terminal.decimal n) = n := by
+  have e : Spec.Terminal.decimal n = Nat.toDigits 10 n := by simp [Spec.Terminal.decimal]
+  have hd : ∀ d ∈ Nat.toDigits 10 n, d.isDigit = true := fun d hd =>
+    Nat.isDigit_of_mem_toDigits (by decide) (by decide) hd
+  rw [e]
+  refine ⟨⟨Nat.toDigits_ne_nil, fun d hd' => ?_⟩, ?_⟩
+  · rw [C18.digitVal_of_isDigit d (hd d hd')]; rfl
+  · rw [value, C18.valueFrom_digits _ _ hd]; exact Nat.ofDigitChars_ten_toDigits
 
 /-! ### conservation -/
 
